@@ -258,7 +258,23 @@ def c18(tier):
     return rep
 
 
+def c01(tier):
+    from . import props_c01
+    rep = Report('C01', tier,
+                 'PARTIAL: decides the compositional ingredients of semantic correctness that are visible in the code - each of the 12 '
+                 'opcode handlers meets its ISA contract (effect summaries vs spec/isa.json), opcode exhaustiveness and progress, '
+                 'encoder/decoder agreement on the instruction union, node-kind exhaustiveness of the dispatchers, lowering order '
+                 'obligations of every construct as dominance chains with operand identity, no use of a temporary after release, zeroed '
+                 'frames. It does NOT decide end-to-end equality of final variable values for all programs, general liveness of register '
+                 'allocation, or the step-budget sentence.',
+                 assumptions=['spec/isa.json is the intended instruction semantics (transcribed from instr.hpp and the property text)'],
+                 trusted=TRUSTED)
+    props_c01.c01(rep, tier)
+    return rep
+
+
 CHECKS = {
+    'C01': c01,
     'C18': c18,
     'C04': c04,
     'C14': c14, 'C15': c15,
